@@ -257,7 +257,12 @@ class Effects:
                 depth[0] -= 1
         return hook
 
-    def _analyse1(self, f, tracked, flags0):
+    def result_roots(self, f, flag_value):
+        """what the value returned by f may alias when the flag has the given value - decided path by path (states are kept
+        apart at control-flow merges, so `x = fresh; flag = True` on one path does not leak into the other)"""
+        return self._analyse1(f, None, frozenset([flag_value]), disjunctive=True)["returns"]
+
+    def _analyse1(self, f, tracked, flags0, disjunctive=False):
         cfg = CFG(_desugar_ifexp(f.node))
         hook = self._predicate(f)
         # locals bound exactly once to a boolean-looking expression stand for it in tests
@@ -425,7 +430,42 @@ class Effects:
                 frozenset([True, False]) if "orig" in (a[2], b[2]) else frozenset(a[2] | b[2]))
             return (frozenset(env.items()), a[1] | b[1], cur)
 
-        cfg.forward(init, transfer, join)
+        if not disjunctive:
+            cfg.forward(init, transfer, join)
+            return {"writes": writes, "returns": returns, "cfg": cfg}
+
+        def transfer_set(n, states):
+            out = {"__edges__": True}
+            acc = {}
+            for s_ in states:
+                r = transfer(n, s_)
+                if isinstance(r, dict) and "__edges__" in r:
+                    for lbl in ("T", "F", None, "exc"):
+                        v = r.get(lbl, r.get(None)) if lbl in r or None in r else None
+                        if lbl in r:
+                            v = r[lbl]
+                        if v is not None:
+                            acc.setdefault(lbl, set()).add(v)
+                else:
+                    for lbl in ("T", "F", None, "exc"):
+                        acc.setdefault(lbl, set()).add(r)
+            for lbl, vs in acc.items():
+                out[lbl] = frozenset(vs)
+            for lbl in ("T", "F", None, "exc"):
+                out.setdefault(lbl, None)
+            return out
+
+        def join_set(a, b):
+            u = a | b
+            if len(u) > 48:
+                it = iter(u)
+                m = next(it)
+                for x in it:
+                    m = join(m, x)
+                return frozenset([m])
+            return u
+
+        cfg.forward(frozenset([init]), transfer_set, join_set)
         return {"writes": writes, "returns": returns, "cfg": cfg}
 
     def _assign(self, f, t, val, env, n, st, flags_now, record, value_node):
@@ -498,3 +538,21 @@ def _names(t):
             yield from _names(e)
     elif isinstance(t, ast.Starred):
         yield from _names(t.value)
+
+
+def check_result_fresh(ctx, R, f, flag="in_place"):
+    """with the flag false the value returned must not share memory with the array passed in: a view of the caller's array
+    as result means a later in-place step on the result (the next post-processor, the caller) overwrites the caller's data"""
+    eff = Effects(ctx.prog, flag=flag)
+    param = f.params[1]
+    try:
+        roots = eff.result_roots(f, False)
+    except Exception as e:
+        ctx.error(R, "cannot decide what the result of %s may alias: %r" % (f.short, e))
+        return
+    what = "with %s=False the result of %s is a new array, never a view of the input" % (flag, f.short)
+    if ("param", param) in roots:
+        ctx.bad(R, f, f.node, "with %s=False some path of %s returns a view of (or the very array) `%s` it was given: the result shares memory with the caller's "
+                "data although no in-place operation was asked for" % (flag, f.short, param), what, robust=True)
+    else:
+        ctx.ok(R, f.loc(), what, "result may alias: %s" % sorted(str(r[0]) for r in roots))
